@@ -766,12 +766,15 @@ func runConcMode(s *concSpec, r *rand.Rand, prefixOnly bool) (out []labelObs, en
 				close(p.grant)
 			}
 		}
+		if c.sparked != nil {
+			close(c.sparked.grant)
+		}
 		h.gate = func(*opCtx, int) {}
 		go func() {
 			for range c.sigs {
 			}
 		}()
-		c.grp.Stop()
+		go c.grp.Stop()
 		return c.out, nil, false
 	}
 	// a replayed label list may leave work behind: finish it (these steps are observed and become part of the case)
@@ -783,6 +786,9 @@ func runConcMode(s *concSpec, r *rand.Rand, prefixOnly bool) (out []labelObs, en
 		s.Labels = append(s.Labels, l)
 		do(l)
 	}
+	if c.broken == "" && c.stopping {
+		c.anomaly(label{Kind: "stop"}, "Stop has not returned although nothing is parked any more")
+	}
 	if c.broken == "" && len(c.parkedWorkers()) > 0 {
 		c.anomaly(label{Kind: "stop"}, "an abandoned job is left with no live job queued behind it: its end cannot be observed")
 	}
@@ -792,12 +798,15 @@ func runConcMode(s *concSpec, r *rand.Rand, prefixOnly bool) (out []labelObs, en
 				close(p.grant)
 			}
 		}
+		if c.sparked != nil {
+			close(c.sparked.grant)
+		}
 		h.gate = func(*opCtx, int) {}
 		go func() {
 			for range c.sigs {
 			}
 		}()
-		c.grp.Stop()
+		go c.grp.Stop()
 		return c.out, nil, false
 	}
 	if !stopGroup(c.grp) {
